@@ -14,6 +14,15 @@ import evidence as evd
 def family_bdd(rng, count):
     """Small quiescent charts with plain code (no probes): counters, sends, a final state, x-guards."""
     out = []
+    # one fixed chart: a macro step that sends the same event twice with different payloads
+    w = gc.new_chart(['compound', 'basic', 'basic', 'final'], [0, 1, 1, 1], [2, 0, 0, 0], [0, 0, 0, 0])
+    w['trans'] = [gc.mk_trans(2, 3, 1, 0, 'none', 0, gc.desc(incx=1, sends=[(3, 0, 0), (3, 0, 7)])),
+                  gc.mk_trans(3, 2, 1, 0, 'none', 0, gc.desc(sends=[(3, 0, 7), (3, 0, 0)])),
+                  gc.mk_trans(3, 4, 2, 0, 'xlt', 2, gc.desc()),
+                  gc.mk_trans(1, 0, 3, 0, 'none', 0, gc.desc(incx=1))]
+    w['events'] = [1, 2, 3]
+    assert gc.wf(w)
+    out.append(w)
     while len(out) < count:
         c = gc.random_tree(rng, rng.randint(3, 5), allow_history=rng.random() < 0.3, allow_final=True, p_orth=0.3)
         n = c['n']
@@ -24,8 +33,10 @@ def family_bdd(rng, count):
             tg = rng.choice([0] + [t for t in range(1, n + 1) if gc.wf_transition(c, s, t)] * 2)
             ev = rng.choice([1, 2])
             gk, ga = ('xlt', rng.choice([1, 2, 3])) if rng.random() < 0.3 else ('none', 0)
-            act = gc.desc(incx=rng.choice([0, 1]),
-                          sends=[(3, 0, rng.choice([0, 7]))] if rng.random() < 0.35 else [])
+            r_ = rng.random()
+            snd = [(3, 0, rng.choice([0, 7]))] if r_ < 0.3 else \
+                ([(3, 0, 0), (3, 0, 7)] if r_ < 0.45 else ([(3, 0, 7), (3, 0, 0)] if r_ < 0.55 else []))
+            act = gc.desc(incx=rng.choice([0, 1]), sends=snd)
             t = gc.mk_trans(s, tg, ev, 0, gk, ga, act)
             if not any(u['src'] == s and u['ev'] == ev for u in trans):     # deterministic by construction
                 trans.append(t)
@@ -182,6 +193,41 @@ def main(prop, tier, seed, replay_path=None):
                     continue                      # only scenarios that end with an assertion
                 sid += 1
                 scen.setdefault(j['ci'], []).append((sid, h))
+        # seeded random longer scenarios (the model decides them in BddTrace.tla)
+        for ci in range(1, len(charts) + 1):
+            c = charts[ci - 1]
+            for _ in range(250 if quick else 1500):
+                h = []
+                for _ in range(rng.randint(3, 7)):
+                    r_ = rng.random()
+                    if r_ < 0.55 or not h:
+                        kw = rng.choice(['given', 'when', 'when'])
+                        k = rng.choice(['send', 'send', 'send', 'wait', 'nothing', 'nothing', 'repeat'])
+                        if k == 'send':
+                            h.append(dict(kw=kw, kind='send', a=rng.choice(c['events']), b=rng.choice([0, 7]), n=0))
+                        elif k == 'wait':
+                            h.append(dict(kw=kw, kind='wait', a=rng.choice([1, 2]), b=0, n=0))
+                        elif k == 'nothing':
+                            h.append(dict(kw=kw, kind='nothing', a=0, b=0, n=0))
+                        else:
+                            h.append(dict(kw=kw, kind='repeat', a=rng.choice(c['events']), b=0, n=2))
+                    else:
+                        k = rng.choice(['entered', 'not_entered', 'exited', 'not_exited', 'active', 'not_active', 'fired',
+                                        'fired', 'not_fired', 'no_event', 'var_eq', 'var_neq', 'expr_holds',
+                                        'expr_not_holds', 'final', 'not_final'])
+                        if k in ('entered', 'not_entered', 'exited', 'not_exited', 'active', 'not_active'):
+                            h.append(dict(kw='then', kind=k, a=rng.randint(1, c['n']), b=0, n=0))
+                        elif k == 'fired':
+                            h.append(dict(kw='then', kind=k, a=rng.choice(c['events']), b=rng.choice([0, 7]), n=0))
+                        elif k == 'not_fired':
+                            h.append(dict(kw='then', kind=k, a=rng.choice(c['events']), b=0, n=0))
+                        elif k in ('var_eq', 'var_neq', 'expr_holds', 'expr_not_holds'):
+                            h.append(dict(kw='then', kind=k, a=rng.choice([0, 1, 2, 3]), b=0, n=0))
+                        else:
+                            h.append(dict(kw='then', kind=k, a=0, b=0, n=0))
+                if any(x['kw'] == 'then' for x in h):
+                    sid += 1
+                    scen.setdefault(ci, []).append((sid, h))
         # a scenario whose first then has no when before it (documented error)
         for ci in range(1, len(charts) + 1):
             sid += 1
